@@ -101,16 +101,17 @@ static int ref_unpar(unsigned b) { return ref_odd_parity(b) ? (int) (b & 0x7F) :
  * value of the selecting quantity, so that at each call site the pointer the step dereferences is a CONSTANT; exactly one
  * of the call sites executes, which one is symbolic:
  *   MODE_CUR   first bytes after which only the current packet is dereferenced (parity error, stuffing, header of a class
- *              the demux does not store, terminator, caption code, content; with C2K=other: header of a stored class with a
- *              type it rejects, second byte = boundary values of the accepted ranges): one call site per current slot
+ *              the demux does not store, terminator, caption code, content): one call site per current slot
  *              (none / [class][0..0x17]), dispatched by a balanced tree of if/else so that the states are merged pairwise
  *              (a linear chain of 96 exclusive branches accumulates a 96-deep selection per slot member: quadratic);
  *              CURC on the grid restricts an instance to one class of the current packet (4x smaller, 4 instances);
  *   MODE_HDR   header of a stored class with an accepted type: 32 call sites, one per type (0x00-0x17, 0x40-0x47; the second
  *              byte is then a constant at the call site, the header's slot too); the current-packet pointer stays symbolic
  *              (it is only overwritten);
- *   MODE_SYM   the earlier encoding (one call, everything symbolic), kept for the thorough tier where it decides the
- *              rejected types of stored classes for ALL second bytes.
+ *   MODE_SYM   header of a stored class with a type it rejects or a parity error in the second byte (every such second byte):
+ *              one call with everything symbolic (the earlier encoding; both the current and the named slot could be
+ *              dereferenced, a call site per pair of them is too many); 50-75 s because the second byte is confined to
+ *              the rejected values and the contract/frame are the cheap ones of above.
  * The contract is asserted once, on the before/after copies of the one slot concerned that the executed call site leaves
  * in L_o/L_n; the frame ("no other packet is ever touched") slot by slot for all 168 slots against a copy of the pre state. */
 #ifndef C1FIX
@@ -123,15 +124,14 @@ static int ref_unpar(unsigned b) { return ref_odd_parity(b) ? (int) (b & 0x7F) :
 _Static_assert(CLS_MISC == VBI_XDS_CLASS_MISC, "CLS_MISC");
 #define HCLS_OK (IS_HDR && HCLS <= CLS_MISC)
 #define HC (HCLS_OK ? HCLS : 0)
-#define K_SLOT 1                                         /* C2K: second byte names an accepted type */
-#define K_OTHER 2                                        /*      rejected type or parity error, boundary values */
+#define K_SLOT 1                                         /* C2K: second byte names an accepted type (MODE_HDR) */
 #define K_OTHERSYM 3                                     /*      rejected type or parity error, all values (MODE_SYM) */
 #ifndef C2K
 #define C2K K_SLOT
 #endif
 #define MODE_HDR (HCLS_OK && C2K == K_SLOT)
 #define MODE_SYM (HCLS_OK && C2K == K_OTHERSYM)
-#define MODE_CUR (!MODE_HDR && !MODE_SYM)
+#define MODE_CUR (!HCLS_OK)
 static vbi_xds_demux OLD;
 static int W_key, W_cur;
 static int T_set;                 /* the slot concerned (current slot resp. header's slot) may change */
@@ -242,11 +242,6 @@ static vbi_bool leaf_cur(unsigned c, unsigned i, int cc, int ci, const uint8_t *
 #else
 #define T96        { if (cc <= 1) { if (cc <= 0) T24(0) else T24(1) } else { if (cc <= 2) T24(2) else T24(3) } }
 #endif
-#if HCLS_OK
-/* rejected second bytes of a header of a stored class: boundaries of the accepted ranges 0x00-0x17 / 0x40-0x47; the last entry is sent with a parity error */
-static const uint8_t c2_other[] = { 0x18, 0x3F, 0x48, 0x7F, 0x18 };
-#define N_C2_OTHER 5
-#endif
 #endif
 
 V_HARNESS(h_xds_step)
@@ -272,25 +267,11 @@ V_HARNESS(h_xds_step)
   memset(&L_o, 0, sizeof L_o); memset(&L_n, 0, sizeof L_n);
 
 #if MODE_CUR
-  { unsigned k = 0, sel = 0; (void) k; (void) sel;
-#if HCLS_OK      /* C2K == K_OTHER: second byte = one of the boundary values */
-    sel = in_u8();
-    V_ASSUME(sel < N_C2_OTHER);
-#endif
-    OLD = XD;
-#if HCLS_OK
-    for (k = 0; k < N_C2_OTHER; k++) if (sel == k) {
-      pair[1] = (uint8_t) (ref_par8(c2_other[k]) ^ ((k == N_C2_OTHER - 1) ? 0x80 : 0)); c2 = (k == N_C2_OTHER - 1) ? -1 : (int) c2_other[k];      /* constants at this call site */
-#endif
-      /* every path leaves through `goto called`, so that a later call site is reached only with the untouched pre state */
-      if (cc < 0) { r = vbi_xds_demux_feed(&XD, pair); L_none = (XD.curr_sp == NULL); L_this = 0; }
-      else T96
-      contract_cur(cc >= 0, cc, ci, L_o, L_n, c1, c2, r, L_none, L_this, o_class, o_sub);
-      goto called;
-#if HCLS_OK
-    }
-#endif
-  }
+  OLD = XD;
+  if (cc < 0) { r = vbi_xds_demux_feed(&XD, pair); L_none = (XD.curr_sp == NULL); L_this = 0; }
+  else T96
+  contract_cur(cc >= 0, cc, ci, L_o, L_n, c1, c2, r, L_none, L_this, o_class, o_sub);
+  goto called;
 #elif MODE_HDR
   { unsigned k;
     V_ASSUME(c2 >= 0 && slot_of((unsigned) c2) < VBI_XDS_MAX_SUBCLASSES);
